@@ -247,6 +247,15 @@ def no_global_write(chk, program, rule='NO-GLOBAL-WRITE'):
                 while isinstance(root, (ast.Attribute, ast.Subscript)):
                     root = root.value
                 if isinstance(root, ast.Name) and root.id in module_names and (root.id not in local or root.id in globs) and root.id not in ('self', 'logger', 'logging'):
+                    # a method called `clear` / `add` / ... on an object of a class of the package (a value object with such a method) is not a container edit
+                    if how != 'store':
+                        from . import absint as A_
+                        hit_ = A_.ModuleEnv(m.tree).lookup(root.id)
+                        if hit_ is not None and hit_[0] == 'assign' and isinstance(hit_[1], ast.Call) and isinstance(hit_[1].func, (ast.Name, ast.Attribute)):
+                            cn_ = hit_[1].func.id if isinstance(hit_[1].func, ast.Name) else None
+                            ch_ = hit_[2].lookup(cn_) if cn_ else None
+                            if ch_ is not None and ch_[0] == 'class' and any(isinstance(b_, ast.FunctionDef) and b_.name == how for b_ in ch_[1].body):
+                                continue
                     bad.append(f"{root.id}.{how}@{x.lineno}")
                 if isinstance(root, ast.Call) and isinstance(root.func, ast.Name) and root.func.id == 'globals' and how == 'store':
                     bad.append(f"globals()[...] store@{x.lineno}")
